@@ -120,6 +120,24 @@ def run(facts, report, config, scope="all"):
             report.count("caller_sized_copies")
             key = "capguard|%s|%s|%d" % (norm_id(bid), seg, n)
             n += 1
+            # codec paths: the copied source must be the whole encoded magnitude — a sub-slice of the input drops
+            # octets of the encoding without looking at them (a truncated / wrapped value instead of an error)
+            if scope == "codec":
+                report.count("codec_copy_sources")
+                sliced = sorted({mir.last_seg(v) for r in src_roots for v in r.via
+                                 if mir.last_seg(v) in ("index", "index_mut", "get", "get_unchecked", "split_at",
+                                                        "split_first", "split_last", "strip_prefix", "trim_ascii_start")})
+                tkey = "capguard.truncate|%s|%s|%d" % (norm_id(bid), seg, n)
+                if sliced:
+                    report.add(Instance(tkey, "capguard.truncate", "violation",
+                                        "the copied source is a sub-slice of the decoded input (through %s): octets of the "
+                                        "encoding are dropped without being examined, so an oversized encoding yields a "
+                                        "truncated value instead of an error" % sliced, t["s"],
+                                        {"body": bid, "source": [repr(r) for r in src_roots]}), config)
+                else:
+                    report.add(Instance(tkey, "capguard.truncate", "ok",
+                                        "auto: the copy takes the whole input slice (no sub-slicing on the way)", t["s"],
+                                        {"body": bid}), config)
             verdict = None
             seen_guards = []
             for d in view.dominators(bi):
